@@ -87,6 +87,7 @@ class Spec:
         self.entry = None
         self.truncated = False
         self._out_memo = {}
+        self.precise_blocks = set()  # call blocks whose directly called local function is accounted for by per-outcome edge weights
         self._explore()
 
     # ---- evaluation -------------------------------------------------------------------------
@@ -318,6 +319,30 @@ class Spec:
                 seen.append((k, r))
         return [r for (_, r) in seen]
 
+    def _callee_outcomes(self, b, t):
+        """[(ret value|None, effect vector)] of the directly called local function of this call block, one per (return value,
+        path-total) class of the callee explored under the same assumptions and oracles; None when not applicable (then the
+        callee's may-summary is part of the block weight, as before)"""
+        wg = self.weigher
+        if wg is None or not getattr(wg, 'descend', True) or not getattr(wg, 'precise_calls', False) or self.depth > 3:
+            return None
+        cbs = [cb for (cb, how) in wg.se._callees(self.body, b, hows=('direct',))]
+        if len(cbs) != 1 or cbs[0].kind not in ('fn', 'assoc_fn') or cbs[0].id == self.body.id:
+            return None
+        cb = cbs[0]
+        child = wg.for_callee(self.body, b, cb)
+        key = (cb.id, child.own_key)
+        memo = wg._callee_out
+        if key not in memo:
+            memo[key] = None  # recursion guard: a cycle falls back to the may-summary
+            sub = Spec(self.prog, cb, self.fields, oracles=self.oracles, _depth=self.depth + 1, weigher=child)
+            if not sub.truncated:
+                outs = set()
+                for (ret, _uvs, vec) in sub.outcomes():
+                    outs.add((ret, vec))
+                memo[key] = sorted(outs, key=str) if outs else None
+        return memo[key]
+
     def outcomes(self):
         """set of (returned small-int value|None, frozenset((upvar, value|None)...), effect vector|None)
         over return nodes and the effect totals of the paths reaching them"""
@@ -491,7 +516,16 @@ class Spec:
                     tl = self._mut_ref_target(a)
                     if tl is not None:
                         env2.pop(tl, None)
-                out.append((t['target'], env2))
+                couts = self._callee_outcomes(b, t)
+                if couts is None:
+                    out.append((t['target'], env2))
+                else:
+                    self.precise_blocks.add(b)
+                    for (ret, vec) in couts:
+                        e5 = dict(env2)
+                        if dl is not None and dl in self.tracked and okey not in self.oracles and ret is not None:
+                            e5[dl] = ret
+                        out.append((t['target'], e5, vec))
             else:
                 for (ret, writes, vec) in outs:
                     e4 = dict(env2)
@@ -592,7 +626,8 @@ class Spec:
             dims = self.weigher.dims
             wg = self.weigher
             body = self.body
-            weight = lambda b: wg.weight(body, b)
+            pb = self.precise_blocks
+            weight = lambda b: wg.weight(body, b, own_only=(b in pb))
         zero = tuple([0] * dims)
 
         def add(v, w):
@@ -643,7 +678,7 @@ def segment_totals(sp, start_blocks, stop_blocks, cap=2):
             dq.append(('s', n))
     while dq:
         tag, n = dq.popleft()
-        wb = wg.weight(body, n[0])
+        wb = wg.weight(body, n[0], own_only=(n[0] in sp.precise_blocks))
         for m in sp.edges.get(n, ()):
             ews = sp.edge_w.get((n, m)) or {zero}
             new = set()
@@ -654,7 +689,7 @@ def segment_totals(sp, start_blocks, stop_blocks, cap=2):
                 out[('stop', m[0])] |= new
                 continue
             if body.term(m[0])['k'] == 'return':
-                wr = wg.weight(body, m[0])
+                wr = wg.weight(body, m[0], own_only=(m[0] in sp.precise_blocks))
                 out[('return', m[0])] |= {add(v, wr) for v in new}
                 continue
             if not new <= vals[('m', m)]:
@@ -822,6 +857,9 @@ class Weigher:
         self.se = SpecEffects(prog, fields, oracles=oracles, classify=classify)
         self.extra = extra  # optional (body, block) -> [kinds] for statement-level effects
         self._memo = {}
+        self._children = {}
+        self._callee_out = {}
+        self.precise_calls = False
 
     def kinds(self, body, b):
         key = (body.id, b)
@@ -863,13 +901,47 @@ class Weigher:
                             todo.append(c2)
         return s
 
-    def weight(self, body, b):
+    def own_kinds(self, body, b):
+        """kinds of the block's own primitive effect and statement-level kinds only (no callee summaries)"""
+        key = ('own', body.id, b)
+        if key in self._memo:
+            return self._memo[key]
+        ks = []
+        for (k, tag) in self.se.kinds_at(body, b):
+            ks.append('Srepl' if (k == 'S-' and tag is not None and tag == self.own_key) else k)
+        if self.extra:
+            ks += list(self.extra(body, b))
+        self._memo[key] = ks
+        return ks
+
+    def weight(self, body, b, own_only=False):
         v = [0] * self.dims
-        for k in self.kinds(body, b):
+        for k in (self.own_kinds(body, b) if own_only else self.kinds(body, b)):
             i = self.idx.get(k)
             if i is not None:
                 v[i] = min(2, v[i] + 1)
         return tuple(v)
+
+    def for_callee(self, body, b, cb):
+        """the weigher to use inside the directly called function cb: same vocabulary and assumptions, the operation's own
+        key translated to the callee's parameter that receives it"""
+        t = body.term(b)
+        ck = None
+        if self.own_key is not None:
+            for i, a in enumerate(t['args']):
+                if self.se.key_root(body, a) == self.own_key:
+                    ck = (cb.id, i + 1)
+                    break
+        key = (cb.id, ck)
+        if key not in self._children:
+            w = Weigher.__new__(Weigher)
+            w.__dict__.update(self.__dict__)
+            w.own_key = ck
+            w._memo = {}
+            w._children = self._children
+            w._callee_out = self._callee_out
+            self._children[key] = w
+        return self._children[key]
 
     def spec(self, body, upvar_env=None):
         return Spec(self.prog, body, self.se.fields, upvar_env=upvar_env, oracles=self.se.oracles, weigher=self)
